@@ -10,7 +10,7 @@
 //
 // The two bookkeeping queries of dbVersion.GetVersionInfo (`type='update'` settings and `SHOW TABLES`) are
 // answered by the fake itself (Script.Versions / Script.Tables) and are logged like every other query.
-package fakes
+package fakes12
 
 import (
 	"context"
